@@ -3,6 +3,8 @@
 package verifhook
 
 import (
+	"time"
+	"strings"
 	"context"
 	"fmt"
 	"io"
@@ -143,6 +145,45 @@ func OsWriteFile(name string, data []byte, perm os.FileMode) error {
 	}
 	return err
 }
+
+// statInfo is what OsStat reports for a file of the simulated disk.
+type statInfo struct {
+	name string
+	size int64
+}
+
+func (s statInfo) Name() string       { return s.name }
+func (s statInfo) Size() int64        { return s.size }
+func (s statInfo) Mode() os.FileMode  { return 0o644 }
+func (s statInfo) ModTime() time.Time { return time.Time{} }
+func (s statInfo) IsDir() bool        { return false }
+func (s statInfo) Sys() any           { return nil }
+
+// OsStat: existence and size of a file (what a reader of the simulated disk would see now).
+func OsStat(name string) (os.FileInfo, error) {
+	if FS == nil {
+		return os.Stat(name)
+	}
+	f, err := FS.Open(name)
+	if err != nil {
+		if pe, ok := err.(*os.PathError); ok {
+			pe.Op = "stat"
+		}
+		return nil, err
+	}
+	defer f.Close()
+	data, err := io.ReadAll(f)
+	if err != nil {
+		return nil, err
+	}
+	base := name
+	if i := strings.LastIndexByte(name, '/'); i >= 0 {
+		base = name[i+1:]
+	}
+	return statInfo{name: base, size: int64(len(data))}, nil
+}
+
+func OsLstat(name string) (os.FileInfo, error) { return OsStat(name) }
 
 func OsRename(oldpath, newpath string) error {
 	if FS != nil {
